@@ -234,4 +234,17 @@ fn main() {
             println!("  {:<55} validates={:<5} parse: {}", what, valid, match r { Ok(Ok(())) => "Ok".to_string(), Ok(Err(e)) => format!("Err({})", e).chars().take(60).collect(), Err(_) => "PANIC".to_string() });
         }
     });
+    run("S20 Component::parse on truncated / crafted components (C03)", || {
+        let hdr: Vec<u8> = vec![0, 0x61, 0x73, 0x6d, 0x0d, 0, 1, 0];
+        let cases: Vec<(&str, Vec<u8>)> = vec![
+            ("core module section longer than the input", [hdr.clone(), vec![1, 100, 0, 0x61, 0x73, 0x6d, 1, 0, 0, 0]].concat()),
+            ("nested component section longer than the input", [hdr.clone(), vec![4, 100, 0, 0x61, 0x73, 0x6d, 0x0d, 0, 1, 0]].concat()),
+            ("empty input", vec![]),
+            ("header only", hdr.clone()),
+        ];
+        for (what, bytes) in cases {
+            let r = catch_unwind(AssertUnwindSafe(|| wirm::Component::parse(&bytes, false).map(|_| ())));
+            println!("  {:<55} parse: {}", what, match r { Ok(Ok(())) => "Ok".to_string(), Ok(Err(e)) => format!("Err({})", e).chars().take(70).collect(), Err(_) => "PANIC".to_string() });
+        }
+    });
 }
